@@ -282,7 +282,7 @@ def scalar_extreme(kind, n):
 RAMP_EXT = (2, 3, 4)
 
 
-def gen(t, mode="ramp", c=None, dynext=None, level=0):
+def gen(t, mode="ramp", c=None, dynext=None, level=0, _under_ref=False):
     """Generate a value tree.  mode: ramp | long (ramp with multi-slot strings) | extreme | minimal | alt (a second ramp with other numbers, same shapes)
     | null (references null, otherwise ramp)"""
     if c is None:
@@ -305,10 +305,15 @@ def gen(t, mode="ramp", c=None, dynext=None, level=0):
             return "L%d" % n + "y" * (17 + n % 9)
         return "s%d" % n + "x" * (n % 7)
     if k == "St":
-        return {n: gen(ft, mode, c, dynext, level + 1) for n, ft in t[1]}
+        return {n: gen(ft, mode, c, dynext, level + 1, _under_ref) for n, ft in t[1]}
     if k == "A":
         if dynext is not None:
             ext = dynext
+        elif mode == "emptyref" and _under_ref and any(d is None for d in t[2]):
+            # mode emptyref: every reference is BOUND, and an array that is the target of a reference has no items
+            dyn = [i for i, d in enumerate(t[2]) if d is None]
+            ext = [1] * len(t[2])
+            ext[dyn[-1]] = 0
         elif mode == "minimal":
             # zero extent on the last dynamic axis, 1 on the others (a nested list can say (1,0) but not (0,1))
             dyn = [i for i, d in enumerate(t[2]) if d is None]
@@ -324,13 +329,15 @@ def gen(t, mode="ramp", c=None, dynext=None, level=0):
     if k == "R":
         if mode in ("minimal", "null"):
             return None
-        return gen(t[1], mode, c, dynext, level + 1)
+        return gen(t[1], mode, c, dynext, level + 1, True)
     if k == "U":
         if mode in ("minimal", "null"):
             return None
         n = c.nxt()
         i = n % len(t[1]) if mode in ("extreme", "alt") else 0
-        return (i, gen(t[1][i], mode, c, dynext, level + 1))
+        if mode == "emptyref":  # prefer a member that is an array with a dynamic axis
+            i = next((j for j, m in enumerate(t[1]) if m[0] == "A" and any(d is None for d in m[2])), 0)
+        return (i, gen(t[1][i], mode, c, dynext, level + 1, True))
     raise ValueError(t)
 
 
